@@ -497,3 +497,20 @@ CHECKS["C09"]["partial"] = CHECKS["C09"]["partial"] + [{"theorem": "C09 for view
 CHECKS["C09"]["manifest_note"] = CHECKS["C09"]["manifest_note"].replace("NoSsr and Keyed/Indexed under hydration are not.", "Keyed under hydration is generated (4 families x 4 stores) and is a known finding (D17: the server renders no markers for lists, every such view panics on hydration); NoSsr is not in the language.")
 CHECKS["C09"]["manifest_note"] = CHECKS["C09"]["manifest_note"].replace("NoSsr is not in the language.", "NoSsr is generated (3 families x 4 stores) and judged by the oracle only (after hydration and after every write the document shows what a client render shows); it is not modelled.")
 CHECKS["C09"]["partial"] = CHECKS["C09"]["partial"] + [{"theorem": "C09 for views containing NoSsr", "missing": "the placeholder replacement after mount is not modelled; oracle only"}]
+
+# --- async model with resources created inside the tree and reads held by the resource
+CHECKS["C13"]["theorems"] += [AS + n for n in ["C13_task_counter_alive_noUse", "C13_local_noUse", "C13_owner_exists", "C13_owner_constant"]]
+CHECKS["C14"]["theorems"] += [AS + n for n in ["C14_resource_task", "C14_use_task", "C14_owner", "C14_use_released_with_owner", "C14_use_survives_reader_scope"]]
+
+# --- theorems about the repairs D19 (unsubscribe before the teardown) and D13 (start marks reset)
+CHECKS["C04"]["lean_modules"] = CHECKS["C04"]["lean_modules"] + ["SycVerif.Props.C04Repairs"]
+CHECKS["C04"]["theorems"] += [RX + n for n in ["C04_unsubscribed_not_dependent", "C04_unsubscribed_detached", "C04_detached_not_run", "C04_dispose_no_self_rerun",
+                                                "C04_dispose_no_self_rerun_reachable", "C04_dispose_stmt_no_self_rerun", "C04_old_dispose_reruns_itself", "C04_kind_discipline_needed",
+                                                "C04_dispose_runs_registered_cleanups_in_order", "C04_dispose_runs_registered_cleanups_once", "C04_dispose_cleanups_run_node_not",
+                                                "reachable_kindOk", "reachable_tagInv"]]
+CHECKS["C04"]["status"] += ("; for ARBITRARY cleanups (no purity assumption) in every reachable state: disposing a node never re-runs that node (C04_dispose_no_self_rerun — false for the pre-D19 code: "
+                            "C04_old_dispose_reruns_itself) and every cleanup registered on it runs exactly once, in order (C04_dispose_runs_registered_cleanups_once)")
+CHECKS["C04"]["partial"] = [{"theorem": "exactly-once for the cleanups of the whole SUBTREE when cleanups have side effects", "missing": "a cleanup registered through run_in(node) while that node's own cleanups are running is dropped unrun by the model (and the code): not claimed"}]
+CHECKS["C10"]["lean_modules"] = CHECKS["C10"]["lean_modules"] + ["SycVerif.Props.C04Repairs"]
+CHECKS["C10"]["theorems"] += [RX + n for n in ["C10_start_marks_reset", "C10_start_marks_reset_in_propagation", "C10_nested_dfs_traverses_start", "C10_nested_propagation_schedules",
+                                                "C10_nested_dfs_skips_perm_start", "C10_nested_propagation_from_perm_runs_nothing", "C10_batch_nested_write_example", "C10_batch_nested_write_old"]]
